@@ -7,7 +7,6 @@ package main
 import (
 	"flag"
 	"fmt"
-	"math/big"
 	"sync"
 
 	"verif/harness/adapt/permlook"
@@ -158,7 +157,7 @@ func runCurve(c *mon.Ctx, in *permlook.Inst) {
 		sh := sh
 		t.do(fmt.Sprint("vec-honest-", sh), func() {
 			r := rng("vec-honest", sh.lf, sh.lt)
-			for rep := 0; rep < reps; rep++ {
+			for rep := 0; rep < (reps+1)/2; rep++ {
 				for ci, cl := range vecClasses {
 					if !c.Thorough() && vecDomain(sh.lf, sh.lt) > 8 && ci > 1 {
 						break
@@ -232,7 +231,7 @@ func runCurve(c *mon.Ctx, in *permlook.Inst) {
 		sh := sh
 		t.do(fmt.Sprint("tab-honest-", sh), func() {
 			r := rng("tab-honest", sh.k, sh.lf, sh.lt)
-			for rep := 0; rep < reps; rep++ {
+			for rep := 0; rep < (reps+1)/2; rep++ {
 				for ci, cl := range tabClasses {
 					if !c.Thorough() && vecDomain(sh.lf, sh.lt) > 8 && ci > 0 {
 						break
@@ -277,5 +276,4 @@ func runCurve(c *mon.Ctx, in *permlook.Inst) {
 		})
 	}
 	t.wg.Wait()
-	_ = big.NewInt
 }
